@@ -40,6 +40,11 @@ def merge : Dir → Dir → Option Dir
 abbrev Fam := Nat × Nat
 abbrev FamList := List (Fam × Dir)
 
+/-- mirrors types.rs:30 `AddpathFamDir::merge`: nothing for different families, else the merged
+direction for the family (not used by the three derivations, which merge directions directly) -/
+def famDirMerge (x y : Fam × Dir) : Option (Fam × Dir) :=
+  if x.1 ≠ y.1 then none else (merge x.2 y.2).map fun d => (x.1, d)
+
 /-- `iter().find(|(f, _)| my_fam == f)`: first entry for the family -/
 def lookup : FamList → Fam → Option Dir
   | [], _ => none
@@ -109,20 +114,66 @@ def pphConfig (sent rcvd : OpenInfo) (legacy : Bool) : Config × Bool :=
 always, SendReceive for every configured family -/
 def liveLocal (cfgFams : List Fam) : OpenInfo := ⟨true, cfgFams.map (·, Dir.both)⟩
 
-/-- mirrors session.rs (OpenSent/Active + BgpOpen, after the F19 fixes): the peer's entries for
-configured families, each merged with SendReceive -/
-def liveList (cfgFams : List Fam) : FamList → FamList
-  | [] => []
-  | (g, d) :: r =>
-    if cfgFams.contains g then
-      match merge .both d with
-      | some m => (g, m) :: liveList cfgFams r
-      | none => liveList cfgFams r
-    else liveList cfgFams r
+/-- mirrors session.rs (OpenSent/Active + BgpOpen, after the F19 fixes and the first-match fix):
+`config.addpath().iter().filter_map(|fam| received.iter().find(|(f, _)| f == fam)
+   .and_then(|(_, dir)| SendReceive.merge(*dir)).map(|m| AddpathFamDir::new(*fam, m)))` –
+for every configured family the peer's FIRST entry for it, merged with SendReceive -/
+def liveList (cfgFams : List Fam) (peerAp : FamList) : FamList :=
+  cfgFams.filterMap fun g => ((lookup peerAp g).bind (merge .both)).map fun m => (g, m)
 
 /-- Connection starts `modern()`; `set_negotiated_config` adds the list; the
 four-octet flag follows the peer's OPEN -/
 def liveConfig (cfgFams : List Fam) (peer : OpenInfo) : Config :=
   (Config.new peer.four).addAll (liveList cfgFams peer.ap)
+
+/-! ### OPENs whose ADD-PATH capabilities do not all read
+
+`OpenMessage::from_octets` validates only the first tuple of an ADD-PATH capability
+(open.rs:490) and lets direction 0 through; `addpath_families_vec` (open.rs:176) fails on a
+direction outside 1..3 in any tuple and on a value that is not a multiple of four octets.  `none`
+below is that `Err`. -/
+
+/-- what the derivations read from an accepted OPEN: `four_octet_capable()` and
+`addpath_families_vec()` (`none` = `Err`) -/
+structure OpenRd where
+  four : Bool
+  ap : Option FamList
+
+/-- mirrors open.rs:209 `let (Ok(mine), Ok(other)) = … else { return vec![] }` + the filter_map -/
+def intersectionE (mine other : Option FamList) : FamList :=
+  match mine, other with
+  | some a, some b => intersection a b
+  | _, _ => []
+
+def helperE (loc peer : OpenRd) : Config :=
+  (Config.new (loc.four && peer.four)).addAll (intersectionE loc.ap peer.ap)
+
+/-- bmp/message.rs:936 `session_config` on OPENs as read -/
+def bmpConfigE (sent rcvd : OpenRd) : Config :=
+  (Config.new (sent.four && rcvd.four)).addAll (intersectionE sent.ap rcvd.ap)
+
+/-- bmp/message.rs:888 `pph_session_config` on OPENs as read -/
+def pphConfigE (sent rcvd : OpenRd) (legacy : Bool) : Config × Bool :=
+  ((Config.new (!legacy)).addAll (intersectionE sent.ap rcvd.ap),
+   (!legacy) != (sent.four && rcvd.four))
+
+/-- the live session (session.rs, both accepting arms): `let Ok(received_addpaths) =
+open_msg.addpath_families_vec() else { disconnect; Idle; return Err }`; `none` = the OPEN is
+refused (NOTIFICATION, Idle), nothing is negotiated -/
+def liveConfigE (cfgFams : List Fam) (peer : OpenRd) : Option Config :=
+  match peer.ap with
+  | some ap => some (liveConfig cfgFams ⟨peer.four, ap⟩)
+  | none => none
+
+/-- ONE Session used for two connections (OPEN exchange #1, connection lost, a new stream through
+`attach_stream`, OPEN exchange #2).  `attach_stream` (session.rs:137) makes a fresh
+`Connection::for_read_half` whose SessionConfig is `modern()` with an empty ADD-PATH table, and the
+second `set_negotiated_config` replaces `Session.negotiated`; so nothing of the first exchange
+reaches the configuration of the second connection – the first only decides whether the session
+gets that far (`none` = it refused the first OPEN). -/
+def liveSecond (cfgFams : List Fam) (peer1 peer2 : OpenRd) : Option Config :=
+  match liveConfigE cfgFams peer1 with
+  | none => none
+  | some _ => liveConfigE cfgFams peer2
 
 end Rc.Negotiate
